@@ -228,6 +228,10 @@ func init() {
 	registerRule(&RuleDef{ID: "GEN-ENUM", Min: 1, Doc: "enum alias names only with enum types on", Run: ruleGENENUM})
 	registerRule(&RuleDef{ID: "L-ATOM", Min: 8, Doc: "no value read from a guarded field is used in a later critical section of the same lock (split critical section / check-then-act)", Run: ruleLATOM("client", "cache", "server", "database/inmemory")})
 	add("C05", "L-ATOM")
+	registerRule(&RuleDef{ID: "MAP-EQ", Min: 1, Doc: "maps are not compared entry by entry through single-value lookups", Run: ruleMAPEQ})
+	add("C10", "MAP-EQ")
+	add("C13", "MAP-EQ")
+	add("C03", "MAP-EQ")
 	registerRule(&RuleDef{ID: "P-OPT", Min: 0, Doc: "zero tests are not applied to the pointee of an optional value", Run: rulePOPT})
 	add("C09", "P-OPT")
 	add("C10", "P-OPT")
